@@ -28,6 +28,7 @@ class Collector:
         self.skips: collections.Counter = collections.Counter()
         self.viol_counts: collections.Counter = collections.Counter()
         self.violations: list[dict] = []
+        self.watchdog: list[dict] = []
         self.samples: list = []
         self.case_index = -1
         self.case_kind = 'case'
@@ -61,14 +62,14 @@ class Collector:
             self.violations.append({
                 'mech': mech, 'msg': common.short(msg, 600),
                 'case': {'kind': self.case_kind, 'index': self.case_index},
-                'witness': _jsonable(witness or {}),
+                'witness': _jsonable(dict(witness or {}, **({'store_block_size': self.load_factor} if getattr(self, 'load_factor', None) else {}))),
             })
 
     def dump(self) -> dict:
         return {
             'evaluations': self.evaluations, 'distinct': sorted(self.distinct),
             'counters': dict(self.counters), 'skips': dict(self.skips),
-            'viol_counts': dict(self.viol_counts), 'violations': self.violations,
+            'viol_counts': dict(self.viol_counts), 'violations': self.violations, 'watchdog': self.watchdog,
             'samples': _jsonable(self.samples),
         }
 
@@ -137,7 +138,36 @@ def run_shard(prop: str, tier: str, seed: int, shard: int, nshards: int, out: st
         json.dump(d, f)
 
 
+class CaseTimeout(BaseException):
+    """Raised by the per-case wall-clock watchdog (BaseException: check code catching Exception must not swallow it)."""
+
+
+CASE_LIMIT_S = {'quick': int(os.environ.get('BEANMON_CASE_LIMIT', 120)), 'thorough': int(os.environ.get('BEANMON_CASE_LIMIT', 300))}
+
+
+def _on_alarm(signum, frame):
+    raise CaseTimeout()
+
+
 def _run_one(mod, col: Collector, kind: str, idx: int) -> None:
+    """One case under a generous wall-clock watchdog. A case normally takes milliseconds; one that is still running after minutes is
+    looping (typically library code walking a corrupted store). That is not a verdict on the property: the case is abandoned,
+    reported with the place it was stuck at, and the run ends INCONCLUSIVE unless other cases produced violations."""
+    import signal
+    signal.signal(signal.SIGALRM, _on_alarm)
+    signal.setitimer(signal.ITIMER_REAL, CASE_LIMIT_S.get(col.tier, 300))
+    try:
+        _run_one_inner(mod, col, kind, idx)
+    except CaseTimeout:
+        tb = traceback.format_exc()
+        col.watchdog.append({'case': {'kind': kind, 'index': idx}, 'stuck_at': tb[-1200:]})
+        from . import storemodel
+        storemodel.set_load_factor(1000)
+    finally:
+        signal.setitimer(signal.ITIMER_REAL, 0)
+
+
+def _run_one_inner(mod, col: Collector, kind: str, idx: int) -> None:
     col.case_kind, col.case_index = kind, idx
     if kind == 'pinned':
         name, fn = mod.PINNED[idx]
@@ -145,7 +175,20 @@ def _run_one(mod, col: Collector, kind: str, idx: int) -> None:
         fn(col)
     else:
         rng = common.rng_for(col.seed, col.prop, idx)
-        mod.run_case(col, rng, idx)
+        sb = getattr(mod, 'SMALL_BLOCKS', 0)
+        if sb and idx % sb == sb - 1:
+            # every sb-th case of this check runs with all its token stores in 2..10-token blocks (block boundaries everywhere)
+            from . import storemodel
+            col.load_factor = (2, 3, 5, 10)[(idx // sb) % 4]
+            storemodel.set_load_factor(col.load_factor)
+            col.count('cases_in_small_blocks')
+            try:
+                mod.run_case(col, rng, idx)
+            finally:
+                storemodel.set_load_factor(1000)
+                col.load_factor = None
+        else:
+            mod.run_case(col, rng, idx)
 
 
 # --- driver side -----------------------------------------------------------------------------------
@@ -194,6 +237,9 @@ def drive(prop: str, tier: str, seed: int, replay: str | None = None) -> int:
         with open(out) as f:
             d = json.load(f)
         os.remove(out)
+        for w in d.get('watchdog') or []:
+            problems.append(f'shard {shard}: case {w["case"]} was abandoned by the per-case watchdog after {CASE_LIMIT_S[tier]}s; '
+                            f'stuck at: {common.short(w["stuck_at"][-700:], 700)}')
         if d.get('crashed'):
             problems.append(f'shard {shard} harness exception: {common.short(d["crashed"][-1500:], 1500)}')
         parts.append(d)
